@@ -473,6 +473,7 @@ func c06run(sc *sim.Scenario, env *sim.Env, st *sim.Stats, observe bool) c06resu
 			panicked, msg = asmApply(e, op)
 		}
 		after := snapEmitter(e)
+		resyncFlags(m, e, op, out)
 		if observe {
 			env.ObsBool(panicked)
 			obsSnap(env, after)
